@@ -461,7 +461,7 @@ static RunOut exercise(Case &c, Rng &r, const Bytes &file, int presel_song, int 
         if(endless_ok) break;
         {   // second load: valid or hostile
             Rng r2(c.rng.next(), 77, (uint64_t)i);
-            std::string nm; Bytes f2 = r.chance(0.5) ? seed_file(r2, (int)r2.below(5), nm) : hostile_other(r2, nm);
+            std::string nm; Bytes f2 = r.chance(0.4) ? seed_file(r2, (int)r2.below(5), nm) : (r.chance(0.5) ? hostile_other(r2, nm) : hostile_smf(r2, nm));
             ExactBuf in(f2); int rc2 = 0;
             if(via_file)
             {
